@@ -521,6 +521,18 @@ def gen(ctx, emit):
     for sc in truncated:
         emit("c04_find_and_delete %s %s" % (hx(sc + S.push_data(SIG)), show_sigs([SIG])))
         emit("c04_find_and_delete_spec %s %s" % (hx(sc + S.push_data(SIG)), show_sigs([SIG])))
+    # a signature push (and an OP_CODESEPARATOR) lying inside the undecodable rest, at every offset a resynchronising walker could land on
+    for s in (SIG, b"\x30", b""):
+        p = S.push_data(s)
+        for head in (b"\x4b", b"\x4b\x00", b"\x4c", b"\x4c\xff", b"\x4c\xff\x00", b"\x4d\xff", b"\x4d\xff\xff", b"\x4d\xff\xff\x00", b"\x4e\xff\xff\xff",
+                     b"\x4e\xff\xff\xff\x7f", b"\x4e\xff\xff\xff\x7f\x00"):
+            script = p + b"\x51" + head + p + b"\xab" + p
+            emit("c04_find_and_delete %s %s" % (hx(script), show_sigs([s])))
+            emit("c04_find_and_delete_spec %s %s" % (hx(script), show_sigs([s])))
+            emit("c04_delete_subscript %s ab" % hx(script))
+            emit("c04_script_code_spec %s" % hx(script))
+            for coin in ("btc", "grs"):
+                e_f(coin, "legacy", f0, us0, 1, script, [s], 1, spec=True)
     # ---- preimages, field by field
     for coin in COINS:
         for ht in (1, 2, 3, 0x81, 0x82, 0x83, 0x41, 0xC3, 0x1F, 0x20):
